@@ -11,10 +11,12 @@ package main
 //	miss                 GetAllMissingNodes -> "ok <sorted key set|->" | <error>
 //	get <path>           GetNodeValueRaw   -> "ok <hex>" | notpresent | nodenotfound | ...
 //	iter                 Iterate (values)  -> "ok <pairs>" | iterchild | missingnodes | nodenotfound | ...
-//	repair <v>           trie at version v over the damaged store, MergeDB(donor, root, nil) with a donor MemoryNodeDB that
-//	                     holds the removed nodes (inserted in shuffled order)
+//	repair <v> [shape]   trie at version v over the damaged store, MergeDB(donor, root, nil) with a donor that holds the
+//	                     removed nodes (inserted in shuffled order) plus two unrelated ones; shape = mem (default) | pndb |
+//	                     lmm | lmp | lpp: MemoryNodeDB, PNodeDB, LevelNodeDB(memory|persistent current, memory|persistent
+//	                     prev) with the nodes split randomly between the two levels
 //	                     -> "ok <root> has=<bool> miss=<keys|-> donor=<same|changed>"; later ops read the repaired store
-//	restore <raw|mergestate|othertrie>   the removed nodes come back THROUGH THE STORE (raw put / util.MergeState from a
+//	restore <raw|mergestate|othertrie> [shape]   the removed nodes come back THROUGH THE STORE (raw put / util.MergeState from a
 //	                     donor / MergeDB on ANOTHER trie over the same store); the trie object that ran the earlier queries
 //	                     is KEPT, later has/miss/get/iter/mkeys go through it -> "ok"
 //	mkeys                GetMissingNodeKeys of the querying trie (keys its reads found absent so far) -> "ok <sorted set|->"
@@ -260,8 +262,80 @@ func iterStr(mpt *util.MerklePatriciaTrie) string {
 }
 
 // repair runs MergeDB at version v and checks everything the property says about it. Returns (has, miss, donor).
-func (st *c17State) repair(db util.NodeDB, dir string, removed []string, v int64, r *rand.Rand, fail func(string, ...interface{})) (string, string, string, *util.MerklePatriciaTrie) {
-	donor := util.NewMemoryNodeDB()
+// donorShapes: the kinds of node store a repair donor may be. mem / pndb: one store; lmm / lmp / lpp: a LevelNodeDB
+// (memory|persistent current, memory|persistent prev) - the shape of a block's state DB - with the nodes split randomly
+// between its two levels.
+var donorShapes = []string{"mem", "pndb", "lmm", "lmp", "lpp"}
+
+type donorDB struct {
+	db    util.NodeDB   // what MergeDB / MergeState iterate
+	parts []util.NodeDB // the underlying single-level stores (1 or 2)
+	dirs  []string
+}
+
+func newDonor(shape string) *donorDB {
+	mk := func(persistent bool) (util.NodeDB, string) {
+		if !persistent {
+			return util.NewMemoryNodeDB(), ""
+		}
+		dir := freshDir("c17donor")
+		db, err := util.NewPNodeDB(dir, "")
+		if err != nil {
+			panic(err)
+		}
+		return db, dir
+	}
+	d := &donorDB{}
+	add := func(persistent bool) util.NodeDB {
+		db, dir := mk(persistent)
+		d.parts = append(d.parts, db)
+		if dir != "" {
+			d.dirs = append(d.dirs, dir)
+		}
+		return db
+	}
+	switch shape {
+	case "pndb":
+		d.db = add(true)
+	case "lmm":
+		d.db = util.NewLevelNodeDB(add(false), add(false), false)
+	case "lmp":
+		d.db = util.NewLevelNodeDB(add(false), add(true), false)
+	case "lpp":
+		d.db = util.NewLevelNodeDB(add(true), add(true), false)
+	default:
+		d.db = add(false)
+	}
+	return d
+}
+
+// put stores the node in a randomly chosen level of the donor.
+func (d *donorDB) put(k util.Key, n util.Node, r *rand.Rand) {
+	_ = d.parts[r.Intn(len(d.parts))].PutNode(k, n)
+}
+
+// snapshot: every entry of every level, and whether every key is the hash of its node.
+func (d *donorDB) snapshot() (rawStore, bool) {
+	out, ok := rawStore{}, true
+	for i, p := range d.parts {
+		s, sk := snapshotDB(p)
+		ok = ok && sk
+		for k, v := range s {
+			out[fmt.Sprintf("%d/%s", i, k)] = v
+		}
+	}
+	return out, ok
+}
+
+func (d *donorDB) close() {
+	for _, dir := range d.dirs {
+		grocksdb.FakeReset(dir)
+	}
+}
+
+func (st *c17State) repair(db util.NodeDB, dir string, removed []string, v int64, shape string, r *rand.Rand, fail func(string, ...interface{})) (string, string, string, *util.MerklePatriciaTrie) {
+	donor := newDonor(shape)
+	defer donor.close()
 	sh := append([]string(nil), removed...)
 	r.Shuffle(len(sh), func(i, j int) { sh[i], sh[j] = sh[j], sh[i] })
 	for _, k := range sh {
@@ -269,20 +343,26 @@ func (st *c17State) repair(db util.NodeDB, dir string, removed []string, v int64
 		if err != nil {
 			panic("frozen store lost node " + hx([]byte(k)))
 		}
-		_ = donor.PutNode(util.Key(k), n)
+		donor.put(util.Key(k), n, r)
 	}
 	// the donor also holds nodes that have nothing to do with this trie, older and younger than the repair version
 	for j, o := range []int64{0, v + 5} {
 		u := util.NewLeafNode([]byte("ee"), []byte{'e', byte('0' + j)}, util.Sequence(o), mkVal([]byte{0xee, byte(j), ':'}))
-		_ = donor.PutNode(u.GetHashBytes(), u)
+		donor.put(u.GetHashBytes(), u, r)
 	}
-	before, _ := snapshotDB(donor)
+	// the donor itself can read every removed node
+	for _, k := range removed {
+		if _, err := donor.db.GetNode(util.Key(k)); err != nil {
+			fail("harness: donor (%s) cannot read node %s: %v", shape, hx([]byte(k)), err)
+		}
+	}
+	before, _ := donor.snapshot()
 	mpt := newMPT(db, v, st.root)
-	res := guard(func() string { return errKind(mpt.MergeDB(donor, st.root, nil)) })
+	res := guard(func() string { return errKind(mpt.MergeDB(donor.db, st.root, nil)) })
 	if res != "ok" {
-		fail("MergeDB at version %d: %s", v, res)
+		fail("MergeDB at version %d from a %s donor: %s", v, shape, res)
 	}
-	after, selfKeyed := snapshotDB(donor)
+	after, selfKeyed := donor.snapshot()
 	donorS := "same"
 	if !sameRaw(before, after) || !selfKeyed {
 		donorS = "changed"
@@ -301,7 +381,7 @@ func (st *c17State) repair(db util.NodeDB, dir string, removed []string, v int64
 	}
 	if len(st.root) > 0 {
 		if has != "false" {
-			fail("after repair at version %d (nodes created at %d) HasMissingNodes = %s, still missing %s", v, st.version, has, missS)
+			fail("after repair at version %d (nodes created at %d) from a %s donor HasMissingNodes = %s, still missing %s", v, st.version, shape, has, missS)
 		}
 		if ms != "ok" || len(keys) != 0 {
 			fail("after repair at version %d GetAllMissingNodes = %s %s", v, ms, fmtKeys(keys))
@@ -391,7 +471,7 @@ func (st *c17State) digest(idxs []int, v int64, r *rand.Rand, fail func(string, 
 	if cls.Len() == 0 {
 		cls.WriteByte('-')
 	}
-	h2, m2, d2, _ := st.repair(db, "", removed, v, r, fail)
+	h2, m2, d2, _ := st.repair(db, "", removed, v, st.digestShape(r), r, fail)
 	rep := "ok"
 	if h2 != "false" || m2 != "-" || d2 != "same" {
 		rep = "FAILED"
@@ -399,6 +479,13 @@ func (st *c17State) digest(idxs []int, v int64, r *rand.Rand, fail func(string, 
 	sort.Ints(idxs)
 	return idxList(idxs) + ":" + has + ":" + idxList(missIdx) + ":" + cls.String() + ":" + rep
 }
+
+// digestShape: the composite ops draw from all donor shapes.
+func (st *c17State) digestShape(r *rand.Rand) string {
+	return digestDonorShapes[r.Intn(len(digestDonorShapes))]
+}
+
+var digestDonorShapes = donorShapes
 
 func (st *c17State) usedSorted() []string {
 	var ps []string
@@ -593,14 +680,20 @@ func runC17(ops []string) CaseResult {
 			}
 		case "restore":
 			out = guard(func() string {
-				donor := util.NewMemoryNodeDB()
+				shape := "mem"
+				if len(f) > 2 {
+					shape = f[2]
+				}
+				dd := newDonor(shape)
+				defer dd.close()
 				for _, k := range st.removed {
 					n, err := st.db.GetNode(util.Key(k))
 					if err != nil {
 						panic("frozen store lost node")
 					}
-					_ = donor.PutNode(util.Key(k), n)
+					dd.put(util.Key(k), n, r)
 				}
+				donor := dd.db
 				switch f[1] {
 				case "raw":
 					for _, k := range st.removed {
@@ -692,7 +785,12 @@ func runC17(ops []string) CaseResult {
 			tags["ctx-cancelled-during-walk"] = true
 		case "repair":
 			v, _ := strconv.ParseInt(f[1], 10, 64)
-			has, miss, donor, m2 := st.repair(st.cur, st.curDir, st.removed, v, r, fail)
+			shape := "mem"
+			if len(f) > 2 {
+				shape = f[2]
+			}
+			tags["donor:"+shape] = true
+			has, miss, donor, m2 := st.repair(st.cur, st.curDir, st.removed, v, shape, r, fail)
 			out = fmt.Sprintf("ok %s has=%s miss=%s donor=%s", rootStr(st.root), has, miss, donor)
 			st.curMpt = m2
 			st.curRaw = st.full
@@ -890,9 +988,9 @@ func genC17(r *rand.Rand, tier string, idx int) []string {
 		}
 		if r.Intn(2) == 0 {
 			// the nodes come back through the store; the SAME trie object goes on answering
-			ops = append(ops, "mkeys", "restore "+[]string{"raw", "mergestate", "othertrie"}[r.Intn(3)], "has", "miss", "iter", "mkeys")
+			ops = append(ops, "mkeys", "restore "+[]string{"raw", "mergestate", "othertrie"}[r.Intn(3)]+" "+digestDonorShapes[r.Intn(len(digestDonorShapes))], "has", "miss", "iter", "mkeys")
 		} else {
-			ops = append(ops, fmt.Sprintf("repair %d", repairV()))
+			ops = append(ops, fmt.Sprintf("repair %d %s", repairV(), digestDonorShapes[r.Intn(len(digestDonorShapes))]))
 			ops = append(ops, "has", "iter")
 		}
 		if len(pool) > 0 {
@@ -974,7 +1072,7 @@ func genC17Comb(r *rand.Rand, kind string, ver int64) []string {
 		}
 		ops = append(ops, "has", "miss", "get "+keys[r.Intn(len(keys))], "get "+keys[r.Intn(len(keys))])
 		v := []int64{0, ver0, ver, ver + 2, ver - 1, ver0 + 1}[r.Intn(6)]
-		ops = append(ops, fmt.Sprintf("repair %d", v), "has", "miss")
+		ops = append(ops, fmt.Sprintf("repair %d %s", v, digestDonorShapes[r.Intn(len(digestDonorShapes))]), "has", "miss")
 	}
 	ops = append(ops, fmt.Sprintf("rm %d", n-3), "has", "mkeys", "restore mergestate", "has", "miss", "mkeys", "cwalk")
 	return append(ops, "iter", "sweep1")
